@@ -87,21 +87,27 @@ theorem ovf_sub (a b : BitVec 32) :
   simp only [Spec.subOvf, Bool.or_eq_true, Bool.and_eq_true, slt_iff', decide_eq_true_eq, toInt32, hs, BitVec.toNat_ofNat]
   split <;> split <;> split <;> omega
 
-/-- both ALUs dispatch (format, opcode) to handlers with the same architectural effect -/
-def Agree (fmt op dstW : Nat) : Prop :=
+/-- both ALUs dispatch (format, opcode) to handlers with the same architectural effect on EVERY input -/
+def AgreeOn (dg dc : Nat → Nat → Option (ScalarIn → ScalarOut)) (fmt op dstW : Nat) : Prop :=
+  ∃ g c, dg fmt op = some g ∧ dc fmt op = some c ∧ ∀ i : ScalarIn, (g i).norm dstW = (c i).norm dstW
+
+def Agree (fmt op dstW : Nat) : Prop := AgreeOn Gen.gcn3.dispatch Gen.cdna3.dispatch fmt op dstW
+
+/-- the same on every input whose SCC is a bit (opcodes that read SCC) -/
+def AgreeScc (fmt op dstW : Nat) : Prop :=
   ∃ g c, Gen.gcn3.dispatch fmt op = some g ∧ Gen.cdna3.dispatch fmt op = some c ∧
     ∀ i : ScalarIn, i.sccOk → (g i).norm dstW = (c i).norm dstW
 
-theorem agree_of_conforms {fmt op w : Nat} {spec : ScalarIn → ScalarOut}
-    (h1 : ConformsTo Gen.gcn3.dispatch fmt op w spec) (h2 : ConformsTo Gen.cdna3.dispatch fmt op w spec) :
-    Agree fmt op w := by
+theorem agree_of_conforms {dg dc : Nat → Nat → Option (ScalarIn → ScalarOut)} {fmt op w : Nat} {spec : ScalarIn → ScalarOut}
+    (h1 : ConformsTo dg fmt op w spec) (h2 : ConformsTo dc fmt op w spec) :
+    AgreeOn dg dc fmt op w := by
   obtain ⟨g, hg, hg'⟩ := h1
   obtain ⟨c, hc, hc'⟩ := h2
-  exact ⟨g, c, hg, hc, fun i _ => (hg' i).trans (hc' i).symm⟩
+  exact ⟨g, c, hg, hc, fun i => (hg' i).trans (hc' i).symm⟩
 
 theorem agree_of_conformsScc {fmt op w : Nat} {spec : ScalarIn → ScalarOut}
     (h1 : ConformsScc Gen.gcn3.dispatch fmt op w spec) (h2 : ConformsScc Gen.cdna3.dispatch fmt op w spec) :
-    Agree fmt op w := by
+    AgreeScc fmt op w := by
   obtain ⟨g, hg, hg'⟩ := h1
   obtain ⟨c, hc, hc'⟩ := h2
   exact ⟨g, c, hg, hc, fun i hi => (hg' i hi).trans (hc' i hi).symm⟩
